@@ -227,6 +227,8 @@ type VC struct {
 	uf          map[string]bool
 	constDecls  []string
 	needNeedsWrite   bool
+	clauseLabels     map[string]bool      // labels asked about with @clause_NAME(f)
+	fnConsts         map[string]*Contract // function constants declared so far, with their contracts (nil: none)
 	needsWriteAxioms []string // facts about function constants: does the contract demand a non-static context
 	pendingThis     *Val // struct holding the function value of a field-function call (bound to "this" in its contract)
 	pendingThisType types.Type
